@@ -10,6 +10,13 @@
 (*                            observation about the protocol as implemented,       *)
 (*                            documented in DESIGN.md, outside the listed          *)
 (*                            properties' quantifier (announcement sequences)      *)
+(*   Neg_Discovery_asyncbye   the tokio flavour's remove_service_from_discovery     *)
+(*                            queues the goodbye and clears the store at once: the *)
+(*                            executor finds nothing to announce, no goodbye is    *)
+(*                            sent (RemoveSaysGoodbye) and the others keep listing *)
+(*                            the peer for its whole TTL -- observed on the real   *)
+(*                            implementation by the e2e runs, documented in        *)
+(*                            DESIGN.md (no listed property speaks about it)       *)
 (*   Neg_Discovery_shortttl   TTL 4 s: records expire between two 5 s polls, a     *)
 (*                            running peer drops out of view (Stable)              *)
 EXTENDS Discovery, TLC
@@ -18,6 +25,8 @@ CONSTANTS p1, p2, p3
 TwoPeers == {p1, p2}
 ThreePeers == {p1, p2, p3}
 OnlyP1 == {p1}
+OnlyP2 == {p2}
+NoPeers == {}
 \* bound on the packets in flight keeps the lossy three-peer model small
 Bounded == Cardinality(net) <= 6
 =============================================================================
